@@ -179,6 +179,20 @@ TargetFile(fname, k) ==
     File(fname, <<>>, << ObjectDecl(DeclNames[k][1], <<MinField(1)>>),
                          OneofDecl(DeclNames[k][2], <<MinOption(1)>>),
                          EnumDecl(DeclNames[k][3], <<"FIRST">>, FALSE, "") >>)
+\* (fn: the name of the file that holds the service and the topic; generated files are linked in the order of their
+\* paths, and "u" sorts after "service/" and "topic/": there the sub-package files are linked BEFORE the file they import)
+SvcRefBase(fn) == [pkgs |-> << Pkg(PkgNames[1], << File(fn, <<>>,
+                            << ObjectDecl(DeclNames[1][1], <<MinField(1)>>),
+                               ServiceDecl(DeclNames[1][2], "/" \o ShortOf(PkgNames[1]) \o "/v1",
+                                  << Method(MethodName(DeclNames[1][2], 1), "POST", <<Lit("things")>>,
+                                            << Plain(FieldNames[1], Ref("object", PkgNames[1], <<DeclNames[1][1].src>>, "", "qual")) >>, TRUE,
+                                            << Plain(FieldNames[1], Ref("object", PkgNames[1], <<DeclNames[1][1].src>>, "", "qual")) >>) >>),
+                               TopicDecl(DeclNames[1][3], "publish",
+                                  << Message(MessageName(DeclNames[1][3], 1),
+                                             << Plain(FieldNames[1], Ref("object", PkgNames[1], <<DeclNames[1][1].src>>, "", "qual")) >>) >>) >>),
+                            \* (a second file keeps this base out of the "wide" bases, where the whole catalogue is explored)
+                            File("b", <<>>, << ObjectDecl(DeclNames[2][1], <<>>) >>) >>) >>]
+
 Base(b) ==
     CASE b = "empty"   -> [pkgs |-> <<>>]
       \* the wide base: the full catalogue is explored here (see Wide)
@@ -206,17 +220,8 @@ Base(b) ==
                                TopicDecl(DeclNames[1][4], "upsert", <<Message(MessageName(DeclNames[1][4], 1), <<>>)>>) >>) >>) >>]
       \* a method and a topic message whose fields already refer to the declared type Apple: an inline type appended to the
       \* same message and named Apple (field apple object {...}) must not capture those references
-      [] b = "svcref" -> [pkgs |-> << Pkg(PkgNames[1], << File("a", <<>>,
-                            << ObjectDecl(DeclNames[1][1], <<MinField(1)>>),
-                               ServiceDecl(DeclNames[1][2], "/" \o ShortOf(PkgNames[1]) \o "/v1",
-                                  << Method(MethodName(DeclNames[1][2], 1), "POST", <<Lit("things")>>,
-                                            << Plain(FieldNames[1], Ref("object", PkgNames[1], <<DeclNames[1][1].src>>, "", "qual")) >>, TRUE,
-                                            << Plain(FieldNames[1], Ref("object", PkgNames[1], <<DeclNames[1][1].src>>, "", "qual")) >>) >>),
-                               TopicDecl(DeclNames[1][3], "publish",
-                                  << Message(MessageName(DeclNames[1][3], 1),
-                                             << Plain(FieldNames[1], Ref("object", PkgNames[1], <<DeclNames[1][1].src>>, "", "qual")) >>) >>) >>),
-                            \* (a second file keeps this base out of the "wide" bases, where the whole catalogue is explored)
-                            File("b", <<>>, << ObjectDecl(DeclNames[2][1], <<>>) >>) >>) >>]
+      [] b = "svcref" -> SvcRefBase("a")
+      [] b = "svcreflate" -> SvcRefBase("u")
       \* proto <-> j5s: p.proto of package 1 imports a.j5s.proto and uses its Apple (proto -> j5s); file b of package 1 may refer to
       \* p.proto's Pear / Plum without import (j5s -> proto, same package); package 2 imports "foo/v1/p.proto" by path
       [] b = "proto" -> [pkgs |-> << Pkg(PkgNames[1], << File("a", <<>>, << ObjectDecl(DeclNames[1][1], <<MinField(1)>>) >>),
